@@ -4,6 +4,12 @@
   DWARF 5 type units of `.debug_info` has COMPLETED; a scan that raises publishes nothing (after fix ccfe17f), so the
   next lookup scans again.  The scan and the lookup in a finished map enter as parameters that are pure in the file:
   Model/DieSection `sigUnits` and Model/Die `dieBySig8` are the instances (Props/C04 `sig8_history_independent`).
+
+  The machine is generic in the query type `Q`, so the same four definitions model every cache of the library that is
+  built by one complete scan on first use and published only when the scan returns:
+    * `DWARFInfo._type_units_by_sig`            Q = signature                 (Props/C04)
+    * `RelrRelocationTable._cached_relocations` Q = num_relocations | get_relocation n
+                                                `self._cached_relocations = list(self.iter_relocations())` (Props/C08)
 -/
 import PyElf.Core.Basic
 namespace PyElf.Model.SigCache
@@ -17,7 +23,7 @@ def St.init {M : Type} : St M := ⟨none⟩
 
 /-- one `get_DIE_by_sig8(sig)` / `get_TU_by_sig8(sig)`: `_parse_debug_types()` (returns at once when the map exists;
     otherwise scans, and assigns the map only if nothing raised), then the lookup in the map -/
-def step {M A : Type} (scan : M × Option Err) (look : M → Int → R A) (st : St M) (sig : Int) : R A × St M :=
+def step {M Q A : Type} (scan : M × Option Err) (look : M → Q → R A) (st : St M) (sig : Q) : R A × St M :=
   match st.map with
   | some m => (look m sig, st)
   | none =>
@@ -26,7 +32,7 @@ def step {M A : Type} (scan : M × Option Err) (look : M → Int → R A) (st : 
     | none => (look scan.1 sig, ⟨some scan.1⟩)
 
 /-- a history of lookups on one object: the answers in order, and the final state -/
-def run {M A : Type} (scan : M × Option Err) (look : M → Int → R A) : St M → List Int → List (R A) × St M
+def run {M Q A : Type} (scan : M × Option Err) (look : M → Q → R A) : St M → List Q → List (R A) × St M
   | st, [] => ([], st)
   | st, sig :: rest =>
     let (a, st') := step scan look st sig
@@ -34,7 +40,7 @@ def run {M A : Type} (scan : M × Option Err) (look : M → Int → R A) : St M 
     (a :: as, st'')
 
 /-- what a freshly opened object answers -/
-def stateless {M A : Type} (scan : M × Option Err) (look : M → Int → R A) (sig : Int) : R A :=
+def stateless {M Q A : Type} (scan : M × Option Err) (look : M → Q → R A) (sig : Q) : R A :=
   match scan.2 with
   | some e => .error e
   | none => look scan.1 sig
